@@ -277,15 +277,25 @@ class KMatrix(ModelItem):
     def is_sequential(self, compartments: list[str], initial_concentration: np.ndarray) -> bool:
         """Returns true in the KMatrix represents an unibranched model.
 
+        This is the case if only the first compartment is populated initially and every
+        compartment decays exclusively into its successor (the last one into the ground state),
+        which is what ``a_matrix_sequential`` assumes.
+
         Parameters
         ----------
         initial_concentration :
             The initial concentration.
         """
-        if np.sum(initial_concentration) != 1:
+        initial_concentration = np.asarray(initial_concentration)
+        if (
+            initial_concentration.size == 0
+            or initial_concentration[0] != 1
+            or np.any(initial_concentration[1:] != 0)
+        ):
             return False
         matrix = self.reduced(compartments)
-        return not any(
-            np.nonzero(matrix[:, i])[0].size != 1 or i != 0 and matrix[i, i - 1] == 0
-            for i in range(matrix.shape[1])
+        size = matrix.shape[1]
+        return all(
+            np.nonzero(matrix[:, i])[0].size == 1 and matrix[min(i + 1, size - 1), i] != 0
+            for i in range(size)
         )
